@@ -228,8 +228,9 @@ def drop_statements(prog, ks):
 
 
 # ---------------------------------------------------------------------------------------------------
-# DEFECTS stream: constructs that crash, do not compile or give wrong values on the unchanged tree (found
-# while building this check).  One small TU each; reported with a stable key while they fail.
+# DEFECTS stream: constructs that crashed, did not compile or gave wrong values on the pinned tree (found while
+# building this check; all but the known findings were repaired by `fix:` commits, see known_findings.json).
+# One small TU each, kept as regression cases; reported with a stable key whenever they fail.
 def _defects():
     x4 = ("VVar", 0, 4); y4 = ("VVar", 1, 4); z2 = ("VVar", 2, 2); x3 = ("VVar", 3, 3)
     A = ("MVar", 0, 3, 3); B = ("MVar", 1, 2, 3); N = ("MVar", 2, 2, 2)
@@ -265,11 +266,13 @@ def _defects():
     add("optimizer:prod(prod(A,B),alpha*x):ambiguous", "matrix_vector_prod_optimizer<matrix_matrix_prod<..>,V> and <M,vector_scalar_multiply<V>> are ambiguous",
         ("SAssignV", False, "OpSet", x3, ("VMv", 1, ("MProd", 1, A, A), ("VScale", 2, x3))))
     add("proxy:column(temporary):does-not-compile", "column(m,j) for an rvalue m calls column(lvalue&) which is not viable: column(trans(B),1) does not compile",
-        ("__cxx__", "v2 = column(trans(m1),1);", ("SAssignV", False, "OpSet", z2, ("VCol", ("MTrans", B), 1))))
+        ("__cxx__", "v3 = column(trans(m1),1);", ("SAssignV", False, "OpSet", x3, ("VCol", ("MTrans", B), 1))))
     add("crash:A+f(B,C):mixed-orientation", "matrix_addition whose right operand is a matrix_binary with one row-major and one column-major operand (R = S + S*trans(M)) segfaults",
         ("SAssignM", False, "OpSet", A, ("MAdd", A, ("MBin", "BMul", A, ("MTrans", A)))))
     add("cblas:integer-prod(scalar_matrix,scalar_matrix):does-not-compile", "with -DREMORA_USE_CBLAS the gemm binding is selected for value type long when both operands are scalar_matrix",
         ("SAssignM", False, "OpSet", N, ("MProd", 1, ("MConst", 2, 3, 2), ("MConst", 3, 2, 2))), "long_cblas")
+    add("optimizer:subrange(diagonal_matrix):off-diagonal-block", "matrix_range_optimizer<diagonal_matrix> is only right for a diagonal block (row range == column range); the REMORA_RANGE_CHECKs vanish under NDEBUG and an off-diagonal block comes out as a smaller diagonal matrix (expression_optimizers.hpp)",
+        ("SAssignM", False, "OpSet", N, ("MRange", ("MDiagM", x3), 0, 2, 1, 3)))
     add("assign:noalias*=:unit_vector-rhs", "noalias(x) *= (sparse-like right-hand side such as unit_vector): only the non-zero positions are multiplied, the others keep their value instead of becoming 0",
         ("SAssignV", True, "OpMul", x4, ("VUnit", 4, 2, 3)))
     return decls, D
